@@ -17,8 +17,8 @@ NAME="$(echo "$P" | tr 'A-Z' 'a-z')_${M}_demo"
 git apply "$D/patch.diff" || { echo "$P/$M: patch does not apply"; exit 3; }
 SUITE=$(cargo test --workspace --no-fail-fast --offline 2>&1 | grep -E "^test result" | awk '{p+=$4; f+=$6} END {print p" passed "f" failed"}')
 cp "$D/demo.rs" "$DIR/tests/$NAME.rs"
-cargo test --offline -p $PKG --test $NAME >/tmp/confirm.with 2>&1; WITH=$?
+cargo test --offline -p $PKG --test $NAME >"$D/confirm.with.log" 2>&1; WITH=$?
 git checkout -q -- .
-cargo test --offline -p $PKG --test $NAME >/tmp/confirm.without 2>&1; WITHOUT=$?
+cargo test --offline -p $PKG --test $NAME >"$D/confirm.without.log" 2>&1; WITHOUT=$?
 rm -f "$DIR/tests/$NAME.rs"
 echo "$P/$M: suite-with-patch: $SUITE; demo with patch exit=$WITH (want !=0); demo without patch exit=$WITHOUT (want 0); demo dir=$DIR/tests"
